@@ -1,22 +1,22 @@
 #!/bin/bash
 # usage: try_seed.sh <property id> <dir with patch.diff demo.py meta.json> [check ids...]
 # Confirms the seeded change (demo passes before / fails after, baseline tests unchanged) in a scratch
-# worktree, then applies it to /repo, runs the given checks (quick tier), and undoes it.
+# worktree of /repo's HEAD and runs the given checks (quick tier) against that changed worktree
+# (PYTHONPATH=<worktree>/src; evidence of the trial goes to a scratch directory).  /repo itself is
+# never touched, so trials can run next to each other and next to checks of the unchanged tree.
+# (Equivalent to: git -C /repo apply patch.diff; run checks; git -C /repo checkout -- .)
 set -u
 PID=$1; DIR=$2; shift 2; CHECKS=${@:-$PID}
 WT=/tmp/seedwt_$$
 git -C /repo worktree add -q $WT HEAD || exit 2
-echo "== demo on unchanged tree"; REPO_SRC=$WT/src PYTHONPATH=$WT/src /venv/bin/python $DIR/demo.py > /tmp/seed_demo_before.txt 2>&1; B=$?; tail -2 /tmp/seed_demo_before.txt
+echo "== demo on unchanged tree"; REPO_SRC=$WT/src PYTHONPATH=$WT/src /venv/bin/python $DIR/demo.py > /tmp/seed_demo_before_$$.txt 2>&1; B=$?; tail -2 /tmp/seed_demo_before_$$.txt
 git -C $WT apply $DIR/patch.diff || { echo "patch does not apply"; git -C /repo worktree remove --force $WT; exit 2; }
-echo "== demo on changed tree"; REPO_SRC=$WT/src PYTHONPATH=$WT/src /venv/bin/python $DIR/demo.py > /tmp/seed_demo_after.txt 2>&1; A=$?; tail -2 /tmp/seed_demo_after.txt
+echo "== demo on changed tree"; REPO_SRC=$WT/src PYTHONPATH=$WT/src /venv/bin/python $DIR/demo.py > /tmp/seed_demo_after_$$.txt 2>&1; A=$?; tail -2 /tmp/seed_demo_after_$$.txt
 echo "== baseline tests on changed tree"; (cd $WT && PYTHONPATH=$WT/src /venv/bin/python -m pytest -q -p no:cacheprovider --timeout=900 --continue-on-collection-errors 2>&1 | tail -1)
-git -C /repo worktree remove --force $WT
 echo "demo exit before=$B after=$A"
-[ -n "$(git -C /repo status --porcelain)" ] && { echo "/repo not clean"; exit 2; }
-git -C /repo apply $DIR/patch.diff || exit 2
 for c in $CHECKS; do
-  echo "== check $c (quick) on changed /repo"
-  (cd /verif && timeout 1800 /venv/bin/python -m harness.check $c --tier quick 2>&1 | grep -E "^OK|^VIOLATION|MACHINERY|KNOWN|^  " | head -6)
+  echo "== check $c (quick) on changed tree $(cd /verif && PYTHONPATH=$WT/src /venv/bin/python -c 'from harness import compat; import metador_core; print(metador_core.__file__)')"
+  (cd /verif && PYTHONPATH=$WT/src VERIF_TRIAL_EVIDENCE=/tmp/seed_evidence_$$ timeout 1800 /venv/bin/python -m harness.check $c --tier quick 2>&1 | grep -E "^OK|^VIOLATION|MACHINERY|KNOWN|^  " | cut -c1-700 | head -6)
 done
-git -C /repo checkout -- .
-git -C /repo status --porcelain
+git -C /repo worktree remove --force $WT
+rm -rf /tmp/seed_evidence_$$ /tmp/seed_demo_before_$$.txt /tmp/seed_demo_after_$$.txt
